@@ -40,18 +40,18 @@ theorem rawString_keeps (s : Str) : rawString s none false false = .ok (.raw s) 
 /-! ### the standalone test, judged on the source as written -/
 
 /-- `process_standalone_statement` answers true exactly when: everything after the tag up to a line
-    break is space/tab (or the source ends there, full templates only) AND everything between the
+    break is space/tab (or only spaces/tabs remain before the end of the source, full templates only) AND everything between the
     previous line break (or the start) and the tag is space/tab -/
 theorem standalone_iff (stk : List Tmpl) (src : Str) (s e : Nat) (isPartial : Bool)
     (hs : s ≤ src.length) (he : e ≤ src.length) :
     ∃ stk', processStandalone stk src s e false isPartial = .ok
-      ((startsWithEmptyLine (src.drop e) || (!isPartial && (src.drop e).isEmpty)) &&
+      ((startsWithEmptyLine (src.drop e) || (!isPartial && (trimStartBlank (src.drop e)).isEmpty)) &&
         (s == 0 || endsWithEmptyLine (src.take s)), stk') := by
   have h1 : slice? src e src.length = some (src.drop e) := by
     simp [slice?, he, List.take_of_length_le]
   have h2 : slice? src 0 s = some (src.take s) := by simp [slice?, hs]
   simp only [processStandalone, h1, h2]
-  by_cases hw : (startsWithEmptyLine (src.drop e) || (!isPartial && (src.drop e).isEmpty)) = true
+  by_cases hw : (startsWithEmptyLine (src.drop e) || (!isPartial && (trimStartBlank (src.drop e)).isEmpty)) = true
   · simp only [hw, ↓reduceIte, Bool.false_and, Bool.false_eq_true, Bool.true_and]
     exact ⟨stk, rfl⟩
   · simp only [hw, Bool.false_eq_true, ↓reduceIte]
